@@ -26,7 +26,7 @@ def from_notes(pid):
     if not os.path.exists(fn): return None
     t = open(fn).read()
     def grab(key):
-        m = re.search(r'`?%s`?\s*:\s*"(.*?)"\s*(?:\n|$)' % re.escape(key), t, flags=re.S)
+        m = re.search(r'`?%s`?\s*:\s*"(.*?)"[\s.]*(?:\n|$)' % re.escape(key), t, flags=re.S)
         return re.sub(r'\s+', ' ', m.group(1)).strip() if m else None
     a, b = grab('level_claimed.text'), grab('level_note')
     return (a, b) if a and b else None
